@@ -111,8 +111,10 @@ def oracle(sc, res):
     pending = list(specs)
     groups = []
     for e in sends:
-        t, _, _, dp, pf, ps, prio, sa, ln, r = e
-        m = next((a for a in pending if a[0] == dp and a[1] == pf and a[2] == ps and a[3] == prio and a[5]['len'] == ln), None)
+        t, _, _, dp, pf, ps, prio, sa, ln, r, dat = e
+        # (the payload decides between two submissions that differ in nothing else — two timers sending the same group)
+        m = next((a for a in pending if a[0] == dp and a[1] == pf and a[2] == ps and a[3] == prio and a[5]['len'] == ln
+                  and tuple(payload(a[5])) == tuple(dat)), None)
         if m is None:
             continue
         pending.remove(m)
